@@ -97,7 +97,7 @@ def run(ctx):
     # ---- R5.2 / R5.4 -------------------------------------------------------------
     if True:
         if True:
-            for (tag, virt, states, acc, sets, run_idx, act_idx) in cpu_update_cases(ctx, prog, eff, sp):
+            for (tag, virt, states, acc, sets, run_idx, act_idx) in cpu_update_cases(ctx, prog, eff, sp, maxn=4 if ctx.tier == "thorough" else 3):
                 over = len(run_idx) > 1 and not virt
                 if over:
                     ctx.check(not acc, "R5.2", tag + ":oversubscribed", cu.loc(),
